@@ -10,9 +10,9 @@ from harness.c07_util import World, Hang, time_limit
 from translate import c07_index_sites, c07_index_shapes, c07_index_del, c07_index_listops, c07_index_glue
 
 MANIFEST = dict(
-    technique='Rocq proof (index invariant preserved by every operation incl. defaultdict reads, by induction over operation sequences on several maps; every operation respects ix_equiv; search() sound and complete, and its multiplicity; make_unique loop termination by pigeonhole; CopySet iteration total and exception-free under arbitrary mutation; worldspawn pinned; EVERY function of vmf.py that writes an index, an entity list, VMF.spawn or a key dict - and the glue around them - read off the source as a program/shape and proved equal to the model operation whenever its named obligations hold; one statement c07_property over all generated programs with the census as a hypothesis) + five fail-closed ast translators (census of writers/escapes/key sources on a normalised function; programs/shapes of Entity.__setitem__ (lookup loop and maintenance chain), Entity.__delitem__, Entity.clear, Entity.__init__/parse/copy, Entity.pop, Entity.make_unique, VMF.__init__, VMF.parse (worldspawn replacement, entity loop), VMF.create_ent, VMF.add_ent, VMF.add_ents, VMF.remove_ent, _remove_copyset, VMF.search, CopySet.__iter__) + vm_compute correspondences (operation sequences incl. non-ASCII names under CPython\'s casefold table, search, search as written with multiplicities, iteration traces) + scan oracle on real VMF objects under a time limit',
-    text='Theorems in Props/C07.v about SM/IndexModel.v (entity list, spawn, per-entity key lists with case-insensitive first-spelling-wins lookup, by_class/by_target as maps from folded key to sets of entities, possibly holding empty sets left by defaultdict reads): the invariant "every index entry equals the scan of entities+worldspawn under the current folded classname / targetname (\'\' -> None), the worldspawn has class worldspawn and is listed under it" holds for VMF(), for VMF.parse of any tree, is preserved by every operation (create_ent/add_ent/add_ents/remove_ent, Entity(), copy between maps, []=, del (single and tuple), pop, popitem, setdefault, update, clear, make_unique, export, reading by_class[k]/by_target[k]) whatever its arguments and whether or not it raises, hence after every finite history over any number of maps; search() returns exactly the matching entities, each once per matching name plus once per matching class (c07_search_multiplicity, round 4); states that differ only in empty sets held by the index maps stay equivalent under every operation. The code is modelled from its source, regenerated on every run, and for each function a theorem says that every generated object passing its named obligations is the model operation for all inputs: Entity.__setitem__ (lookup loop + maintenance chain incl. the error path of the worldspawn guard), Entity.__delitem__, Entity.clear, VMF.add_ent/add_ents/remove_ent, _remove_copyset, VMF.search, CopySet.__iter__ (rounds 2-3) and, round 4, the glue: VMF.__init__ (= init), VMF.parse = constructor + worldspawn replacement + entity loop (= parse_init for every tree), VMF.create_ent, Entity.__init__/parse/copy, Entity.pop, Entity.make_unique (= make_unique). c07_property (round 4) composes them: for every record P of generated objects with programs_ok P and every census list (all functions that write by_class/by_target/VMF.entities/VMF.spawn/Entity._keys, from the census translator) with census_covered, every census function as written is the model operation on its modelled domain and preserves the invariant, and after every history of public operations as written on a map constructed as written the invariant holds, lookups by class and by name are exactly the scan, search as written is search_spec and the worldspawn is pinned; both hypotheses are instance obligations of every run. Faulty shapes are refuted by computed witnesses on reachable states (rounds 2-3 list, plus: constructor that does not file the spawn, parse re-assigning the spawn before dropping the placeholder, pop through _keys.pop, constructor filling the dict directly, make_unique looking a candidate up un-folded, search yielding the class set twice). Folding: str.casefold is a parameter; c07_table_fold_ok/idem show that ASCII lower-casing extended by any table of non-ASCII code points with folded images satisfies every fold hypothesis, and the correspondence runs the model with CPython\'s table for the names it uses (ß, İ, ...). Tied to vmf.py on every run by the fail-closed census, 58 shape/path obligations, and correspondences comparing, after every step, error code, entity list, key lists and both indexes of the model with real VMF objects (a fifth of the random histories with non-ASCII names; add_ents called with generator/iterator/map/list/tuple), search results as sets and as multisets, and the yield traces of index iterations with mutating bodies; a scan oracle checks the property directly on the implementation after every step (every history under a time limit: a hang is a violation with a replay).',
-    note='Trusted: Coq kernel + vm_compute, translate/c07_index_sites.py, c07_index_shapes.py, c07_index_del.py, c07_index_listops.py, c07_index_glue.py, the hand model SM/IndexModel.v (tied by the correspondences and, for every function of the census and the glue, by translator-generated programs proved equal to it), CPython (incl. the MutableMapping mixins popitem/setdefault/update, which Entity inherits: obligation popitem_setdefault_update_are_the_mutablemapping_mixins). No axioms. Composition in c07_property is by function: a call from one index-maintaining function to another is interpreted as the model operation, which the callee\'s own clause shows it to be (the generated programs are not inlined into each other; _remove_copyset = ix_remove is a separate clause). str.casefold is a parameter of the model; theorems assume it fixes the empty string and the literals classname/targetname/worldspawn, is idempotent (search, pop with the folded key), distributes over an appended decimal number (make_unique termination) and does not map nodeid to classname/targetname (clear) - proved for ASCII lower-casing and for every table folding with non-ASCII keys, checked against CPython for the code points used. Not modelled: nodeid processing (C08), conversion of non-string values (conv_kv), Entity.keys setter (clear+update), laziness and order of search() results (the generator runs when iterated; multiplicity is modelled), the empty sets that make_unique and iteration leave in the implementation\'s defaultdicts (shown irrelevant for every later operation: c07_run_respects_ix_equiv), VMF.export beyond its three key operations on the worldspawn. Out of domain: add_ent of the worldspawn object or of an entity created for another VMF, writing through the dict returned by the deprecated Entity.keys property.',
+    technique='Rocq proof (index invariant preserved by every operation incl. defaultdict reads, by induction over operation sequences on several maps; every operation respects ix_equiv; search() sound and complete, and its multiplicity; make_unique loop termination by pigeonhole; CopySet iteration total and exception-free under arbitrary mutation; worldspawn pinned; EVERY function of vmf.py that writes an index, an entity list, VMF.spawn or a key dict - and the glue around them - read off the source as a program/shape and proved equal to the model operation whenever its named obligations hold; one statement c07_property over all generated programs with the census as a hypothesis) + five fail-closed ast translators (census of writers/escapes/key sources on a normalised function; programs/shapes of Entity.__setitem__ (lookup loop and maintenance chain), Entity.__delitem__, Entity.clear, Entity.__init__/parse/copy, Entity.pop, Entity.make_unique, VMF.__init__, VMF.parse (worldspawn replacement, entity loop), VMF.create_ent, VMF.add_ent, VMF.add_ents, VMF.remove_ent, _remove_copyset, VMF.search (round 5: also plain .get lookups, `or` chains and truthiness tests), CopySet.__iter__; a flag cached on an entity object is a condition that no fact decides, so every obligation it matters for fails) + vm_compute correspondences (operation sequences incl. the deprecated `ent.keys = {...}` setter and non-ASCII names under CPython\'s casefold table, search, search as written with multiplicities, iteration traces) + scan oracle on real VMF objects under a time limit',
+    text='Theorems in Props/C07.v about SM/IndexModel.v (entity list, spawn, per-entity key lists with case-insensitive first-spelling-wins lookup, by_class/by_target as maps from folded key to sets of entities, possibly holding empty sets left by defaultdict reads): the invariant "every index entry equals the scan of entities+worldspawn under the current folded classname / targetname (\'\' -> None), the worldspawn has class worldspawn and is listed under it" holds for VMF(), for VMF.parse of any tree, is preserved by every operation (create_ent/add_ent/add_ents/remove_ent, Entity(), copy between maps, []=, del (single and tuple), pop, popitem, setdefault, update, clear, make_unique, export, reading by_class[k]/by_target[k]) whatever its arguments and whether or not it raises, hence after every finite history over any number of maps; search() returns exactly the matching entities, each once per matching name plus once per matching class (c07_search_multiplicity, round 4); states that differ only in empty sets held by the index maps stay equivalent under every operation. The code is modelled from its source, regenerated on every run, and for each function a theorem says that every generated object passing its named obligations is the model operation for all inputs: Entity.__setitem__ (lookup loop + maintenance chain incl. the error path of the worldspawn guard), Entity.__delitem__, Entity.clear, VMF.add_ent/add_ents/remove_ent, _remove_copyset, VMF.search, CopySet.__iter__ (rounds 2-3) and, round 4, the glue: VMF.__init__ (= init), VMF.parse = constructor + worldspawn replacement + entity loop (= parse_init for every tree), VMF.create_ent, Entity.__init__/parse/copy, Entity.pop, Entity.make_unique (= make_unique). c07_property (round 4) composes them: for every record P of generated objects with programs_ok P and every census list (all functions that write by_class/by_target/VMF.entities/VMF.spawn/Entity._keys, from the census translator) with census_covered, every census function as written is the model operation on its modelled domain and preserves the invariant, and after every history of public operations as written on a map constructed as written the invariant holds, lookups by class and by name are exactly the scan, search as written is search_spec and the worldspawn is pinned; both hypotheses are instance obligations of every run; c07_property_generated_only (round 5) instantiates the folding with table_fold tab, so that all hypotheses are booleans over generated objects (tab_non_ascii, tab_closed, census_covered, programs_ok) and only the domain predicates fn_dom/ops_dom remain semantic. Faulty shapes are refuted by computed witnesses on reachable states (rounds 2-3 list, plus: constructor that does not file the spawn, parse re-assigning the spawn before dropping the placeholder, pop through _keys.pop, constructor filling the dict directly, make_unique looking a candidate up un-folded, search yielding the class set twice; round 5: membership read from a flag cached on the entity in __setitem__ / remove_ent, search written as `by_target.get(name) or by_class.get(name)`). Folding: str.casefold is a parameter; c07_table_fold_ok/idem show that ASCII lower-casing extended by any table of non-ASCII code points with folded images satisfies every fold hypothesis, and the correspondence runs the model with CPython\'s table for the names it uses (ß, İ, ...). Tied to vmf.py on every run by the fail-closed census, 58 shape/path obligations, and correspondences comparing, after every step, error code, entity list, key lists and both indexes of the model with real VMF objects (a fifth of the random histories with non-ASCII names; add_ents called with generator/iterator/map/list/tuple), search results as sets and as multisets, and the yield traces of index iterations with mutating bodies; a scan oracle checks the property directly on the implementation after every step (every history under a time limit: a hang is a violation with a replay).',
+    note='Trusted: Coq kernel + vm_compute, translate/c07_index_sites.py, c07_index_shapes.py, c07_index_del.py, c07_index_listops.py, c07_index_glue.py, the hand model SM/IndexModel.v (tied by the correspondences and, for every function of the census and the glue, by translator-generated programs proved equal to it), CPython (incl. the MutableMapping mixins popitem/setdefault/update, which Entity inherits: obligation popitem_setdefault_update_are_the_mutablemapping_mixins). No axioms. Composition in c07_property is by function: a call from one index-maintaining function to another is interpreted as the model operation, which the callee\'s own clause shows it to be (the generated programs are not inlined into each other; _remove_copyset = ix_remove is a separate clause). str.casefold is a parameter of the model; theorems assume it fixes the empty string and the literals classname/targetname/worldspawn, is idempotent (search, pop with the folded key), distributes over an appended decimal number (make_unique termination) and does not map nodeid to classname/targetname (clear) - proved for ASCII lower-casing and for every table folding with non-ASCII keys, checked against CPython for the code points used. Entity.keys setter: obligation keys_setter_is_clear_then_update (it is clear_keys() = clear followed by update(value)); the histories exercise it and the model runs Clear then Update. A condition on an attribute of the entity object (MCCached / VCCached) is given the value false by the interpreters; no theorem about programs that pass their obligations depends on that value (the facts never decide it, so both branches must do the same). Not modelled: nodeid processing (C08), conversion of non-string values (conv_kv), laziness and order of search() results (the generator runs when iterated; multiplicity is modelled), the empty sets that make_unique and iteration leave in the implementation\'s defaultdicts (shown irrelevant for every later operation: c07_run_respects_ix_equiv), VMF.export beyond its three key operations on the worldspawn. Out of domain: add_ent of the worldspawn object or of an entity created for another VMF, writing through the dict returned by the deprecated Entity.keys property.',
 )
 
 NAMES = ['a', 'A', 'Ab', 'aB', '', 'a1', 'worldspawn']
@@ -141,10 +141,15 @@ def gen_ops(rng: random.Random, n: int, names=NAMES, allow_iter: bool = True) ->
             e = pick_ent(m)
             if e is not None:
                 ops.append(('setdefault', m, e, _key(rng), rng.choice(names)))
-        elif r < 0.87:
+        elif r < 0.86:
             e = pick_ent(m)
             if e is not None:
                 ops.append(('update', m, e, _kvs(rng, names, 0, 3)))
+        elif r < 0.87:
+            # round 5: the deprecated `ent.keys = {...}` setter (clear_keys() + update()), an alternative entry point
+            e = pick_ent(m)
+            if e is not None:
+                ops.append(('keyset', m, e, _kvs(rng, names, 0, 3)))
         elif r < 0.90:
             e = pick_ent(m)
             if e is not None:
@@ -303,6 +308,17 @@ CORPUS = [
     [('new', 0, [('classname', 'a')]), ('adds', 0, [1], 'map')],
     [('new', 0, [('classname', 'a')]), ('new', 0, [('classname', 'Ab')]), ('adds', 0, [1, 2, 1], 'list'), ('rem', 0, 1, True)],
     [('new', 0, [('classname', 'a')]), ('adds', 0, [1], 'tuple'), ('adds', 0, [], 'gen')],
+    # round 5: entities that came in through the bulk form add_ents and are re-keyed / cleared afterwards (a membership
+    # flag kept by add_ent only would not know them); the `ent.keys = {...}` setter on an indexed entity, on the
+    # worldspawn (a re-class is refused half-way: ValueError after the clear), with another spelling of the keys
+    [('new', 0, [('classname', 'a'), ('targetname', 'Ab')]), ('adds', 0, [1], 'list'), ('set', 0, 1, 'classname', 'Ab'),
+     ('del', 0, 1, 'targetname'), ('clear', 0, 1)],
+    [('new', 0, [('classname', 'a')]), ('adds', 0, [1, 1], 'tuple'), ('rem', 0, 1, False), ('set', 0, 1, 'TargetName', 'a1'),
+     ('uniq', 0, 1, 'a')],
+    [('create', 0, 'Ab', [('targetname', 'aB')]), ('keyset', 0, 1, [('Classname', 'a'), ('TargetName', 'a1')])],
+    [('create', 0, 'Ab', [('targetname', 'aB')]), ('keyset', 0, 1, []), ('keyset', 0, 1, [('targetname', 'A')])],
+    [('set', 0, 0, 'targetname', 'a'), ('keyset', 0, 0, [('targetname', 'Ab'), ('classname', 'a'), ('x', 'a')])],
+    [('new', 0, [('classname', 'a'), ('targetname', 'a')]), ('keyset', 0, 1, [('classname', 'A')]), ('add', 0, 1)],
 ]
 
 
@@ -325,7 +341,7 @@ def search(ck: Ck) -> None:
             if op[0] == 'adds':
                 ck.hist('add_ents_iterable_form', op[3] if len(op) > 3 else 'gen')
         kinds = {op[0] for op in ops}
-        if kinds & {'create', 'add', 'adds', 'parse'} and kinds & {'set', 'del', 'dels', 'pop', 'popitem', 'update', 'clear', 'uniq', 'rem', 'iter'}:
+        if kinds & {'create', 'add', 'adds', 'parse'} and kinds & {'set', 'del', 'dels', 'pop', 'popitem', 'update', 'clear', 'keyset', 'uniq', 'rem', 'iter'}:
             ck.seen(('oracle', repr(ops)))
         p = first_problem(ops)
         if p is None:
@@ -343,8 +359,13 @@ def search(ck: Ck) -> None:
             small = [o for o in ops[:ops.index(p[1]) + 1]] if p[1] in ops else ops
         else:
             small = shrink(ops[:p[0] + 1] if len(ops) > p[0] + 1 and same(ops[:p[0] + 1]) else ops, same)
+        q = first_problem(small)
+        if q is None or classify(q[1], q[2]) != key:
+            # the order in which an index iteration yields entities (set order = object addresses) can differ between two runs
+            # of one history, so a faulty implementation may not fail the same way twice: keep the history as first observed
+            small, q = list(ops), p
         if key not in found or len(small) < len(found[key][0]):
-            found[key] = (small, first_problem(small))
+            found[key] = (small, q)
     for key, (ops, p) in sorted(found.items()):
         ck.violation(key, f'{p[2][0]} {p[2][1]} after step {p[0]} {p[1]!r}: {p[2][2]!r}',
                      {'ops': ops, 'problem': list(p), 'how': 'checks.c07.first_problem(ops): World(2 maps); scan after every step'})
@@ -372,11 +393,17 @@ Definition check_obs (st : mstate) (er : nat) (x : exp) : bool :=
   && forallb (fun p : str * list nat => eqb_ln (sorted_elems (ix_get (by_class st) p.1)) p.2) xbc
   && forallb (fun p : option str * list nat => eqb_ln (sorted_elems (ix_get (by_target st) p.1)) p.2) xbt.
 (* a case: steps with the map to observe and the expected observation; result = index of first disagreement *)
-Fixpoint first_bad (n : nat) (steps : list (wop * nat * exp)) (w : list mstate) : option nat :=
+(* one implementation step = one or more model operations; an error stops the rest (the exception propagates) *)
+Fixpoint wsteps (os : list wop) (w : list mstate) : list mstate * nat :=
+  match os with
+  | [] => (w, 0)
+  | o :: r => let '(w', er) := wstep cf o w in match er with 0 => wsteps r w' | _ => (w', er) end
+  end.
+Fixpoint first_bad (n : nat) (steps : list (list wop * nat * exp)) (w : list mstate) : option nat :=
   match steps with
   | [] => None
   | (o, m, x) :: r =>
-      let '(w', er) := wstep cf o w in
+      let '(w', er) := wsteps o w in
       match w' !! m with
       | Some st => if check_obs st er x then first_bad (S n) r w' else Some n
       | None => Some n
@@ -430,6 +457,14 @@ def _c_kvs(tab, kvs) -> str:
 
 def _c_nats(xs) -> str:
     return '[' + '; '.join(str(int(x)) if int(x) >= 0 else '999' for x in xs) + ']'   # -1 = object unknown to the history
+
+
+def coq_wops(tab, op) -> list[str]:
+    """The model operations of one implementation step (round 5: `ent.keys = kvs` is Clear then Update; an exception of
+    the first would stop the second — [wsteps] below)."""
+    if op[0] == 'keyset':
+        return [coq_wop(tab, ('clear', op[1], op[2])), coq_wop(tab, ('update', op[1], op[2], op[3]))]
+    return [coq_wop(tab, op)]
 
 
 def coq_wop(tab, op) -> str:
@@ -583,7 +618,7 @@ def corr(ck: Ck, escalate: bool = False, shapes: bool = False) -> None:
             ck.hist('corr_err', err)
             errs += err != 0
         kinds = {s[0][0] for s in steps}
-        if len(steps) >= 2 and kinds & {'set', 'del', 'dels', 'pop', 'popitem', 'update', 'clear', 'uniq', 'rem'}:
+        if len(steps) >= 2 and kinds & {'set', 'del', 'dels', 'pop', 'popitem', 'update', 'clear', 'keyset', 'uniq', 'rem'}:
             ck.seen(('corr', repr(ops)))
     ck.sample({'correspondence_ops': cases[len(CORPUS)][0][:6], 'impl_observation_after_last_step': cases[len(CORPUS)][1][-1][3] if cases[len(CORPUS)][1] else None})
     bad: list[tuple[int, Any]] = []
@@ -602,8 +637,10 @@ def corr(ck: Ck, escalate: bool = False, shapes: bool = False) -> None:
         ilits = []
         q2lits = []
         for ops, steps, queries, iters in part:
-            lits.append('[' + '; '.join(f'({coq_wop(tab, f)}, {m}, {coq_exp(tab, err, obs)})' for f, m, err, obs in steps) + ']')
-            flat_ops = '[' + '; '.join(coq_wop(tab, f) for f, _m, _e, _o in steps) + ']'
+            lits.append('[' + '; '.join(f'([{"; ".join(coq_wops(tab, f))}], {m}, {coq_exp(tab, err, obs)})' for f, m, err, obs in steps) + ']')
+            flat_ops = '[' + '; '.join(o for f, _m, _e, _o in steps for o in coq_wops(tab, f)) + ']'
+            # position of an implementation step in the list of model operations (a keyset step is two of them)
+            mpos = list(itertools.accumulate(len(coq_wops(tab, f)) for f, _m, _e, _o in steps))
             qs = ' && '.join(f'match w !! {m} with Some st => sq {_c_nats(r)} {_strtab(tab, q)} st | None => false end'
                              for m, q, r, _ in queries) or 'true'      # no queries: the history was cut short (exception / hang)
             if shapes:   # VMF.search as written (generated program over the defaultdict semantics), 5 of the queries
@@ -613,7 +650,7 @@ def corr(ck: Ck, escalate: bool = False, shapes: bool = False) -> None:
             qlits.append(f'(let w := wrun cf {flat_ops} w2 in {qs})')
             if iters:
                 chk = ' && '.join(
-                    f'iter_ok fl {pos} {m} {"true" if which == "class" else "false"} '
+                    f'iter_ok fl {mpos[pos] - 1} {m} {"true" if which == "class" else "false"} '
                     f'{_strtab(tab, key if which == "class" else "")} '
                     f'{("None" if key is None else "(Some " + _strtab(tab, key) + ")") if which == "target" else "None"} {_c_nats(ys)}'
                     for pos, m, which, key, ys in iters)
@@ -753,6 +790,8 @@ SHAPE_OBLIGATIONS = {
     'setitem_worldspawn_guard_error_path_restores_the_index': 'maint_guard_error_ok gen_setitem_maint',
     'setitem_targetname_branch_rekeys_by_target': 'maint_targetname_ok gen_setitem_maint',
     'setitem_other_keys_leave_the_indexes_alone': 'maint_other_ok gen_setitem_maint',
+    # round 5, state census: membership is decided by scanning the entity list, not by a flag cached on the entity
+    'setitem_decides_membership_by_scanning_the_entity_list_not_by_a_cached_flag': 'prog_stateless gen_setitem_maint',
     # VMF.add_ents over an iterable argument (theorem c07_add_ents_as_written)
     'add_ents_lists_and_indexes_each_entity_once_for_a_list_argument': 'ae_ok_reiterable gen_add_ents',
     'add_ents_lists_and_indexes_each_entity_once_for_a_one_shot_iterable': 'ae_ok_oneshot gen_add_ents',
@@ -774,6 +813,7 @@ DEL_OBLIGATIONS = {
     'delitem_targetname_branch_rekeys_by_target_under_the_membership_test': 'del_targetname_ok gen_delitem_maint',
     'delitem_refuses_the_classname': 'del_classname_refused gen_delitem_maint',
     'delitem_other_keys_leave_the_indexes_alone': 'del_other_ok gen_delitem_maint',
+    'delitem_decides_membership_by_scanning_the_entity_list_not_by_a_cached_flag': 'prog_stateless gen_delitem_maint',
     'delitem_lookup_is_case_insensitive': 'del_loop_case_insensitive gen_delitem_loop',
     'delitem_pops_the_stored_spelling': 'del_loop_pops_stored gen_delitem_loop',
     # Entity.clear (theorem c07_clear_as_written)
@@ -813,6 +853,8 @@ GLUE_OBLIGATIONS = {
     'make_unique_stores_names_through_setitem': 'mu_stores_through_setitem gen_make_unique',
     'popitem_setdefault_update_are_the_mutablemapping_mixins': 'gen_mixins_inherited',
     'getitem_never_raises_so_setdefault_stores_nothing': 'gen_getitem_never_raises',
+    # round 5: the deprecated `ent.keys = {...}` setter is clear_keys() (= clear) followed by update(<its argument>)
+    'keys_setter_is_clear_then_update': 'gen_keys_setter_is_clear_then_update',
 }
 # the instance of theorem c07_property: all generated objects together pass programs_ok
 PROGRAMS_EXPR = ('programs_ok (PG gen_setitem_shape gen_setitem_maint gen_delitem_maint gen_delitem_loop gen_clear gen_add_ent '
@@ -899,7 +941,7 @@ def run(ck: Ck) -> None:
     ck.rule = ('histories over 2-3 real VMF objects with at most 6 entities each; names drawn from '
                "{a, A, Ab, aB, '', a1, worldspawn} (15 % of the oracle histories and 20 % of the correspondence histories: ß/SS/ss/İ), keys from classname/targetname in "
                'three spellings plus two other keys; operations create/new/copy/add/adds (iterable passed as generator, iterator, map object, list or tuple)/remove/set/del/tuple-del/pop/'
-               'popitem/setdefault/update/clear/make_unique/export/parse/new map/defaultdict read of an index (folded or '
+               'popitem/setdefault/update/clear/the deprecated `ent.keys = {...}` setter/make_unique/export/parse/new map/defaultdict read of an index (folded or '
                'un-folded key)/iterate-while-mutating (loop bodies: set/del/remove/pop/clear/make_unique/create a like-named '
                'entity = late addition); a history is non-trivial when it adds an entity to a map and afterwards mutates keys '
                'or removes; distinct by full history')
@@ -1014,7 +1056,7 @@ def _op_from_json(o):
         return (k, o[1], [tuple(p) for p in o[2]])
     if k == 'create':
         return (k, o[1], o[2], [tuple(p) for p in o[3]])
-    if k == 'update':
+    if k in ('update', 'keyset'):
         return (k, o[1], o[2], [tuple(p) for p in o[3]])
     if k == 'parse':
         return (k, [tuple(p) for p in o[1]], [([tuple(p) for p in kv], h) for kv, h in o[2]])
